@@ -260,7 +260,7 @@ fn fresh_word(rng: &mut Rng, used: &mut HashSet<String>, allow_dup: bool) -> Str
 }
 
 /// a mostly well-formed file; `messy` adds odd white space, comments, empty synonyms, duplicates, orphans
-fn gen_file(rng: &mut Rng, messy: bool) -> String {
+pub(crate) fn gen_file(rng: &mut Rng, messy: bool) -> String {
     let mut out = String::new();
     let mut used = HashSet::new();
     let mut used_cats: HashSet<String> = HashSet::new();
@@ -298,7 +298,7 @@ fn gen_file(rng: &mut Rng, messy: bool) -> String {
     out
 }
 
-fn mutate(rng: &mut Rng, s: &str) -> String {
+pub(crate) fn mutate(rng: &mut Rng, s: &str) -> String {
     let mut cs: Vec<char> = s.chars().collect();
     let extra = ['[', ']', '|', '/', '\n', '\r', ' ', '\u{0B}', '\u{A0}', 'a', 'é', '\u{2028}', '\u{85}'];
     for _ in 0..1 + rng.below(3) {
@@ -313,7 +313,7 @@ fn mutate(rng: &mut Rng, s: &str) -> String {
     cs.into_iter().collect()
 }
 
-fn soup(rng: &mut Rng) -> String {
+pub(crate) fn soup(rng: &mut Rng) -> String {
     let extra = ['[', ']', '|', '/', '/', '\n', '\n', '\r', ' ', '\t', '\u{0B}', '\u{0C}', '\u{A0}', 'a', 'b', 'c', 'é', '\u{2028}', '\u{85}', '\u{3000}', '日', '\u{1F600}', '\u{FEFF}', '\0'];
     (0..rng.below(40)).map(|_| *rng.pick(&extra)).collect()
 }
